@@ -122,9 +122,20 @@ def run(prop, tier):
     obj_b = objdump.assemble(BIN_SRC.replace("%rbx", "%rbp").replace("call g", "call f").replace("\tnop\n\tnop\n", "\tnop\n\tcld\n"), "c14binb")
     if os.path.getsize(obj) != os.path.getsize(obj_b):
         raise MachineryError("the two C14 objects differ in size")
-    listings = [{"id": 0, "text": render.listing_text(U["listing"])}, {"id": 1, "copy_from": obj, "binary": True},
-                {"id": 2, "copy_from": obj_b, "binary": True}]
-    LI = {"text": 0, "bin": 1, "binB": 2}
+    # the same for the text listing: "textA"/"textB" (same size, other registers) share one path and one timestamp
+    text_a = render.listing_text(U["listing"])
+    text_b = text_a.replace("%rbx", "%rbp").replace("%rax", "%rdx")
+    if text_a == text_b or len(text_a) != len(text_b):
+        raise MachineryError("the two C14 text listings must differ and have the same size")
+    tpaths = []
+    for nm, t in (("a", text_a), ("b", text_b)):
+        tp = os.path.join(scratch(), f"c14.text{nm}.s")
+        with open(tp, "w", encoding="utf-8") as f:
+            f.write(t)
+        tpaths.append(tp)
+    listings = [{"id": 0, "text": text_a}, {"id": 1, "copy_from": obj, "binary": True},
+                {"id": 2, "copy_from": obj_b, "binary": True}, {"id": 3, "copy_from": tpaths[0]}, {"id": 4, "copy_from": tpaths[1]}]
+    LI = {"text": 0, "bin": 1, "binB": 2, "textA": 3, "textB": 4}
     job_rules, rid = [], {}
     for r in U["rules"]:
         y, xm = rule_yaml(r)
@@ -134,6 +145,8 @@ def run(prop, tier):
     histories, hist_keys = [], []
     for h in sorted(hists):
         variants = [tuple("text" for _ in h)]
+        if len(h) >= 2:
+            variants.append(tuple("textA" if n % 2 == 0 else "textB" for n, _ in enumerate(h)))
         if any("bin" in rules[r]["inputs"] for r in h):
             variants.append(tuple("bin" if "bin" in rules[r]["inputs"] else "text" for r in h))
             # the file at the input path is replaced between operations (A, B, A, ...)
